@@ -95,7 +95,11 @@ def cases(tier, seed):
     for lens, b0, spec, items in (([1024], 1, "B", [{"kind": "b", "start": 1}]), ([1280], 1, "N", [{"kind": "n", "start": 1}]),
                                   ([2048], 2, "2B", [{"kind": "b", "start": 2}]), ([1281], 1, "N", [{"kind": "n", "start": 1}]),
                                   ([2560], 1, "N", [{"kind": "n", "start": 1}]), ([512, 512], 1, "b", [{"kind": "b", "start": 1}]),
-                                  ([256], 1, "B", [{"kind": "b", "start": 1}]), ([5120], 2, "2N", [{"kind": "n", "start": 2}])):
+                                  ([256], 1, "B", [{"kind": "b", "start": 1}]), ([5120], 2, "2N", [{"kind": "n", "start": 2}]),
+                                  # ... and genomes that are NOT multiples of 256 while ceil(length / 256) is a member
+                                  ([1000], 1, "B", [{"kind": "b", "start": 1}]), ([1100], 1, "N", [{"kind": "n", "start": 1}]),
+                                  ([600, 430], 1, "b", [{"kind": "b", "start": 1}]), ([2000], 2, "2B", [{"kind": "b", "start": 2}]),
+                                  ([2300], 1, "N", [{"kind": "n", "start": 1}]), ([1900, 100], 1, "B", [{"kind": "b", "start": 1}])):
         yield "zm.resspec", {"spec": spec, "items": items, "binsize": b0, "lens": lens, "maxres": -(-sum(lens) // 256)}
     # genome sizes at which the aliases differ from one another (small: < 512 kb; large: > 5.12 Mb)
     for lens in ([300_000], [4_000_000, 2_500_000]):
